@@ -226,6 +226,16 @@ class Kernel:
         if isinstance(s, ast.If):
             if any(isinstance(x, ast.Name) and x.id in self.skip for x in ast.walk(s.test)):
                 return   # logging-only branch (LOGNI decides that it is)
+            # clamp:  if v < 0: v = 0      ==  v = pos(v)
+            t = s.test
+            if isinstance(t, ast.Compare) and len(t.ops) == 1 and isinstance(t.ops[0], (ast.Lt, ast.LtE)) and isinstance(t.left, ast.Name) \
+                    and isinstance(t.comparators[0], ast.Constant) and t.comparators[0].value == 0 and not s.orelse and len(s.body) == 1 \
+                    and isinstance(s.body[0], ast.Assign) and src(s.body[0].targets[0]) == t.left.id \
+                    and isinstance(s.body[0].value, ast.Constant) and s.body[0].value.value == 0:
+                v = self.ev(t.left)
+                if isinstance(v, Sc):
+                    self.env[t.left.id] = Sc(sp.Function("pos")(sp.expand(v.e)))
+                    return
             c = src(s.test)
             if c not in self.conds:
                 raise AnalysisError(f"symalg: branch on `{short(s.test)}` has no configured outcome")
